@@ -99,12 +99,21 @@ func runGroup(t *testing.T, rep *ev.Report, probeOn bool, proto, method string) 
 			if u.h1only && proto == "h2" {
 				continue
 			}
-			for _, other := range [][][2]string{nil, {{"X-UA", "kube-probe/1.26"}}, {{"X-User-Agent", "kube-probe/1.26"}, {"Referer", "kube-probe/1.26"}}} {
+			for oi, other := range [][][2]string{nil, {{"X-UA", "kube-probe/1.26"}}, {{"X-User-Agent", "kube-probe/1.26"}, {"Referer", "kube-probe/1.26"}},
+				{{"Range", "bytes=0-0"}, {"If-None-Match", "*"}}, {{"Range", "bytes=100-"}, {"If-Match", "\"x\""}, {"If-Modified-Since", "Mon, 02 Jan 2006 15:04:05 GMT"}},
+				nil /* oi == 5: a repeated field around User-Agent, see below */} {
 				for _, path := range []string{"/", "/healthz?x=1"} {
 					n++
 					var lines [][2]string
-					lines = append(lines, u.lines...)
-					lines = append(lines, other...)
+					if oi == 5 {
+						// field order: x-trace, user-agent..., x-trace (a repeated name that is NOT adjacent, with the probe text in it)
+						lines = append(lines, [2]string{"X-Trace", "a"})
+						lines = append(lines, u.lines...)
+						lines = append(lines, [2]string{"X-Trace", "kube-probe/1.26"})
+					} else {
+						lines = append(lines, u.lines...)
+						lines = append(lines, other...)
+					}
 					rq := bubble.Req{Method: method, Path: path, Host: "localhost", Lines: lines}
 					if method == "POST" {
 						rq.Body = []byte("payload")
